@@ -188,6 +188,9 @@ def vela_config(V, accel, cli_given, inherit, focus):
             arch._get_vela_config(["file.ini"], False, cli)
     except (af.ConfigOptionError, af.CliOptionError) as e:
         raised = e
+    except (KeyError, ValueError, TypeError, AttributeError, IndexError) as e:
+        # neither a result nor a Vela configuration error: the documented default / rejection did not happen
+        return [("configuration resolved or rejected with a configuration error (not an internal %s: %s)" % (type(e).__name__, str(e)[:80]), False)]
     finally:
         af.ConfigParser = saved
     # ---- oracle (OPTIONS.md)
@@ -240,6 +243,8 @@ def sections_missing(V, which, accel):
             arch._get_vela_config(["file.ini"], False, None)
     except (af.ConfigOptionError, af.CliOptionError) as e:
         raised = e
+    except (KeyError, ValueError, TypeError, AttributeError, IndexError) as e:
+        return [("configuration resolved or rejected with a configuration error (not an internal %s: %s)" % (type(e).__name__, str(e)[:80]), False)]
     finally:
         af.ConfigParser = saved
     if which in ("sys_missing", "mem_missing"):
@@ -271,6 +276,40 @@ def cli_binding(V):
     return [("ArchitectureFeatures receives the parsed --arena-cache-size value unchanged", ok_passed),
             ("[%s] without --arena-cache-size the configuration file's value is honoured (CLI default is None)" % fid,
              V.except_finding(fid, True, default == "None"))]
+
+
+def internal_default(V, variant):
+    """`internal-default` maps to named sections of the bundled example file (OPTIONS.md: Ethos-U65 -> system configuration Ethos_U65_Client_Server and
+    memory mode Dedicated_Sram; Ethos-U55 -> Ethos_U55_High_End_Embedded and Shared_Sram): an architecture object built with the internal
+    defaults carries, option for option, the values of one built from those sections of Arm/vela.ini (both through the real constructor and
+    the real ConfigParser).  variant: the generic class for U55 / U65, and the i.MX93 class the command line uses without --config."""
+    import os
+    import numpy as np
+    import ethosu.vela.vela as vela
+    import ethosu.vela.architecture_features as af
+    from ethosu.vela.tensor import MemArea
+
+    cls = vela.Imx93ArchitectureFeatures if variant == "imx93" else af.ArchitectureFeatures
+    accel = "ethos-u55-128" if variant == "u55" else "ethos-u65-256"
+    names = ("Ethos_U55_High_End_Embedded", "Shared_Sram") if variant == "u55" else ("Ethos_U65_Client_Server", "Dedicated_Sram")
+    ini = os.path.join(os.path.dirname(os.path.dirname(os.path.abspath(vela.__file__))), "config_files", "Arm", "vela.ini")
+    kw = dict(accelerator_config=accel, max_blockdep=af.ArchitectureFeatures.MAX_BLOCKDEP, verbose_config=False, arena_cache_size=None)
+    with core.shims((af, {"print": lambda *a, **k: None})):
+        d = cls(vela_config_files=None, system_config=af.ArchitectureFeatures.DEFAULT_CONFIG, memory_mode=af.ArchitectureFeatures.DEFAULT_CONFIG, **kw)
+        n = af.ArchitectureFeatures(vela_config_files=[ini], system_config=names[0], memory_mode=names[1], **kw)
+    fid = "C18-imx93-internal-default-system-config-is-high-end"
+    cl = []
+    for attr in ("core_clock", "axi0_port", "axi1_port", "const_mem_area", "arena_mem_area", "cache_mem_area", "arena_cache_size"):
+        cl.append(("internal default %s == [%s / %s] of Arm/vela.ini" % (attr, names[0], names[1]), getattr(d, attr) == getattr(n, attr)))
+    for area in MemArea.all():
+        same_scale = bool(d.memory_clock_scales[area] == n.memory_clock_scales[area])
+        if variant == "imx93" and area == MemArea.Dram:
+            cl.append(("[%s] internal default clock scale of %s == the documented section's" % (fid, area.name), V.except_finding(fid, True, same_scale)))
+        else:
+            cl.append(("internal default clock scale of %s == the documented section's" % area.name, same_scale))
+        cl.append(("internal default burst length of %s == the documented section's" % area.name, bool(d.memory_burst_length[area] == n.memory_burst_length[area])))
+        cl.append(("internal default read/write latency of %s == the documented section's" % area.name, bool(np.array_equal(d.memory_latency[area], n.memory_latency[area]))))
+    return cl
 
 
 class _Stop(Exception):
@@ -367,11 +406,12 @@ def main_cli(V, config, sysc, memm):
     return cl
 
 
-FUNCS = {"main_cli": main_cli, "read_config": read_config, "vela_config": vela_config, "sections_missing": sections_missing, "cli_binding": cli_binding}
+FUNCS = {"internal_default": internal_default, "main_cli": main_cli, "read_config": read_config, "vela_config": vela_config, "sections_missing": sections_missing, "cli_binding": cli_binding}
 
 
 def instances(tier, seed):
-    out = [dict(key="read_config/found", fn="read_config", params=dict(with_found=True), weight=100),
+    out0 = [dict(key="internal_default/%s" % v, fn="internal_default", params=dict(variant=v)) for v in ("u55", "u65", "imx93")]
+    out = out0 + [dict(key="read_config/found", fn="read_config", params=dict(with_found=True), weight=100),
            dict(key="read_config/plain", fn="read_config", params=dict(with_found=False), weight=100)]
     for accel in ("Ethos_U55_128", "Ethos_U65_256"):
         out.append(dict(key="vela_config/%s/ports" % accel, fn="vela_config", params=dict(accel=accel, cli_given=False, inherit=False, focus="ports"), weight=500))
